@@ -365,3 +365,56 @@ def _mass_replay(failed):
     from . import replay
     r = replay.radau_mass_replay()
     return dict(replayed=r[0], replay_src=r[1], replay_log="; ".join(failed) + "\n" + r[2])
+
+
+# ============================================================================== C13: Radau's error norms are RMS norms
+def _walk_assigns(node, target, out):
+    if isinstance(node, tuple):
+        if node and node[0] == "assign" and isinstance(node[2], tuple) and node[2][0] == "path" and node[2][1] == [target]:
+            out.append(node)
+        for ch in node:
+            _walk_assigns(ch, target, out)
+    elif isinstance(node, list):
+        for ch in node:
+            _walk_assigns(ch, target, out)
+
+
+def _mentions(node, name):
+    if isinstance(node, tuple):
+        if len(node) >= 3 and node[0] == "mcall" and node[2] == name:
+            return True
+        return any(_mentions(ch, name) for ch in node)
+    if isinstance(node, list):
+        return any(_mentions(ch, name) for ch in node)
+    return False
+
+
+def c13_radau_rms(tier="quick", seed=0):
+    """Every place where RADAU::solve turns a sum of squares into its error norm (main estimate and the refinement on
+    first/rejected steps) normalises it as an RMS norm sqrt(sum/n): the norm of m identical copies equals the norm of one."""
+    t0 = time.time()
+    it, dom = _interp("RADAU")
+    solve = it.fns["RADAU::solve"]
+    nodes = []
+    _walk_assigns(solve[3], "err", nodes)
+    norms = [nd for nd in nodes if nd[1] == "=" and _mentions(nd[3], "sqrt")]
+    if len(norms) < 2:
+        raise Unsupported(f"Radau: expected the main and the refined error norm, found {len(norms)} sqrt-normalisations of `err`")
+    q = TB.Q()
+    failed = []
+    E = sp.Symbol("sumsq", positive=True)
+    for k, nd in enumerate(norms):
+        for n in (1, 2, 4, 16):
+            env = Env()
+            env.declare("n", n)
+            env.declare("err", E * n)     # n identical copies: the sum of squares is n times that of one copy
+            it.expr(nd, env)
+            got = env.get("err")
+            symmap = {}
+            ok, _ = q.unsat(list(symmap.get("_side", [])) + [TB.to_z3(sp.simplify(got ** 2 - E), symmap) != 0, TB.to_z3(E, symmap) > 0], f"norm {k + 1} with {n} copies", True,
+                            sample={"forall": "sum of squares > 0", "obligation": "norm(n copies)^2 == norm(one copy)^2 == sumsq"})
+            if ok is False:
+                failed.append(f"Radau: error norm #{k + 1} (line {nd[-1]}) is not an RMS norm: {n} identical copies give {got} instead of sqrt(sumsq)")
+    return _result("c13_radau_rms", q, t0, failed,
+                   {"functions": ["RADAU::solve: the statements normalising `err` (AST slices)"], "bounds": f"{len(norms)} norms; copy counts 1, 2, 4, 16; exact arithmetic"},
+                   replayed=True if failed else None, replay_src="(identity over loop-free source statements)", replay_log="; ".join(failed))
